@@ -7,19 +7,29 @@ Local Open Scope nat_scope.
 
 Inductive case :=
 | CEngine (cfg : config) (h : list step)                                       (* one engine, a history *)
-| CAllow (cut limit : nat) (allow : list bytes) (queries : list bytes).        (* one _PythonHelper, a query sequence *)
+| CAllow (cut limit : nat) (allow : list bytes) (queries : list bytes)         (* one _PythonHelper, a query sequence *)
+| CGetitem (allow : list bytes) (modules : list bytes) (attrs : list (bytes * bytes)) (keys : list bytes).
+   (* python[key] through a template; modules / attrs: what the Python installation has (oracle tables) *)
 
 Inductive obs :=
 | OEngine (results : list (res bytes))              (* one result per Render step *)
-| OAllow (granted : list bool) (cache_len : nat).   (* per query: no RuntimeError; len(helper._cache) at the end *)
+| OAllow (granted : list bool) (cache_len : nat)    (* per query: no RuntimeError; len(helper._cache) at the end *)
+| OGetitem (outcomes : list N).  (* per key: 0 RuntimeError, 1 a value, 2 ModuleNotFoundError, 3 undefined, 4 ValueError, 5 other *)
 
 (* include chains cannot be longer than the number of files ever written *)
 Definition fuel_of (h : list step) : nat := S (length h).
+
+Definition in_mods (mods : list bytes) (m : bytes) : bool := existsb (bytes_eqb m) mods.
+Definition in_attrs (attrs : list (bytes * bytes)) (m a : bytes) : bool :=
+  existsb (fun p => bytes_eqb (fst p) m && bytes_eqb (snd p) a) attrs.
+Definition gcode (g : goutcome) : N :=
+  match g with GDenied => 0 | GValue => 1 | GNoModule => 2 | GNoAttr => 3 | GValueError => 4 end%N.
 
 Definition run_model (c : case) : obs :=
   match c with
   | CEngine cfg h => OEngine (run (fuel_of h) cfg est0 h)
   | CAllow cut limit allow qs => let '(c', bs) := check_all cut limit allow [] qs in OAllow bs (length c')
+  | CGetitem allow mods attrs keys => OGetitem (map (fun k => gcode (getitem 1 allow (in_mods mods) (in_attrs attrs) k)) keys)
   end.
 
 (* ---------- comparison ---------- *)
@@ -71,6 +81,12 @@ Definition holds (c : case) (o : obs) : list string :=
        else if first_occurrence_wrong allow [] qs bs || negb (Nat.eqb (length bs) (length qs))
             then ["allow_spec"%string] else ["allow_cache_transparent"%string]) ++
       (if n <=? Nat.max limit 1 then [] else ["allow_cache_reset"%string])
+  | CGetitem allow mods attrs keys, OGetitem os =>
+      let want := map (fun k => gcode (getitem 1 allow (in_mods mods) (in_attrs attrs) k)) keys in
+      if list_eqb N.eqb os want then []
+      else if existsb (fun p => N.eqb (fst p) 1 && negb (N.eqb (snd p) 1)) (combine os want)
+           then ["python_access_confined"%string]          (* a value where the allow-list / module structure gives none *)
+           else ["python_getitem"%string]
   | _, _ => ["observation_kind"%string]
   end.
 
@@ -78,6 +94,7 @@ Definition valid (c : case) : Prop :=
   match c with
   | CEngine cfg h => arity_bug cfg = false /\ history_ok cfg h = true
   | CAllow cut _ _ _ => cut = 1
+  | CGetitem _ _ _ _ => True
   end.
 
 (* ---------- sx ---------- *)
@@ -85,7 +102,7 @@ Definition dec_pair (x : sx) : option (bytes * bytes) := match x with L [B a; B 
 Definition dec_item (x : sx) : option item :=
   match x with
   | L [I 0%Z; B s] => Some (Text s) | L [I 1%Z; B s] => Some (Var s)
-  | L [I 2%Z; B s] => Some (Include s) | L [I 3%Z; B s] => Some (Import s)
+  | L [I 2%Z; B s] => Some (Include s) | L [I 3%Z; B s] => Some (Import s) | L [I 4%Z; B s] => Some (IncludeOpt s)
   | _ => None
   end.
 Definition dec_content (x : sx) : option content :=
@@ -119,6 +136,7 @@ Definition dec_obs (x : sx) : option obs :=
   match x with
   | L [I 0%Z; rs] => obind (asListOf dec_res rs) (fun rs => Some (OEngine rs))
   | L [I 1%Z; bs; n] => obind (asListOf asBool bs) (fun bs => obind (asNat n) (fun n => Some (OAllow bs n)))
+  | L [I 2%Z; os] => obind (asListOf asN os) (fun os => Some (OGetitem os))
   | _ => None
   end.
 Definition decode (x : sx) : option (case * obs) :=
@@ -129,6 +147,9 @@ Definition decode (x : sx) : option (case * obs) :=
   | L [I 1%Z; cut; lim; al; qs; io] =>
       obind (asNat cut) (fun cut => obind (asNat lim) (fun lim => obind (asListOf asB al) (fun al =>
       obind (asListOf asB qs) (fun qs => obind (dec_obs io) (fun io => Some (CAllow cut lim al qs, io))))))
+  | L [I 2%Z; al; mods; attrs; keys; io] =>
+      obind (asListOf asB al) (fun al => obind (asListOf asB mods) (fun mods => obind (asListOf dec_pair attrs) (fun attrs =>
+      obind (asListOf asB keys) (fun keys => obind (dec_obs io) (fun io => Some (CGetitem al mods attrs keys, io))))))
   | _ => None
   end.
 
@@ -138,12 +159,14 @@ Definition enc_obs (o : obs) : sx :=
   match o with
   | OEngine rs => L [I 0%Z; L (map enc_res rs)]
   | OAllow bs n => L [I 1%Z; L (map sxBool bs); sxNat n]
+  | OGetitem os => L [I 2%Z; L (map sxN os)]
   end.
 
 Definition spec_obs (c : case) : sx :=
   match c with
   | CEngine cfg h => L (map enc_res (run_spec (fuel_of h) cfg est0 h))
   | CAllow _ _ allow qs => L (map sxBool (map (allowed 1 allow) qs))
+  | CGetitem allow mods attrs keys => L (map (fun k => sxN (gcode (getitem 1 allow (in_mods mods) (in_attrs attrs) k))) keys)
   end.
 
 Definition entry (x : sx) : sx :=
